@@ -210,7 +210,121 @@ def build(active_known=frozenset()):
     )
     pack.extra.append(exec_module_fallback_scan)
     add_keyword_interning(pack)
+    add_cache_write(pack, setup)
     return pack
+
+
+def add_cache_write(pack, setup):
+    """``BasilispImporter._exec_module`` - what is written to the cache after compiling from source: the header carries the
+    modification time and size that were sampled *before the source was read* (the ``path_stats`` handed in by
+    ``exec_module``), so that a source replaced while its namespace was still loading leaves a cache that the next
+    process finds stale.  Stats sampled after compilation would label the old code with the new file's header."""
+    import sys as _sys
+
+    from basilisp import importer as imp
+    from basilisp.lang import compiler, reader, runtime
+    from basilisp.util import timed
+
+    MT, SZ = z3.Const("sampled.mtime", V.Val), z3.Const("sampled.size", V.Val)
+    FN, CFN = z3.Const("src.filename", V.Val), z3.Const("cache.filename", V.Val)
+
+    class NullCM:
+        """stand-in for util.timed(...): a context manager without effect on the block"""
+
+    def wsetup(eng, st):
+        setup(eng, st)
+        eng.class_id(NullCM)
+        eng.class_id(list)
+        eng.models[id(timed)] = Model("util.timed (no effect on the block)", lambda e, s, a, k: iter([(s, e.alloc(s, NullCM))]))
+        eng.method_models[(NullCM, "__enter__")] = Model("timed.__enter__", lambda e, s, a, k: iter([(s, None)]))
+        eng.method_models[(NullCM, "__exit__")] = Model("timed.__exit__", lambda e, s, a, k: iter([(s, False)]))
+        import logging
+
+        eng.ignored_calls.add(id(logging.Logger.debug))
+        eng.models[id(imp.logger.debug)] = Model("logger.debug", lambda e, s, a, k: iter([(s, None)]))
+        eng.models[id(reader.read_file)] = Model("reader.read_file (the forms of the source; may fail)", lambda e, s, a, k: iter([(s, SV(V.fresh_val("forms")))]))
+        eng.models[id(runtime.get_compiler_opts)] = Model("runtime.get_compiler_opts", lambda e, s, a, k: iter([(s, SV(V.fresh_val("opts")))]))
+        eng.models[id(compiler.CompilerContext)] = Model("CompilerContext(...)", lambda e, s, a, k: iter([(s, SV(V.fresh_val("compiler_ctx")))]))
+
+        def compile_module(e, s, a, k):
+            s2 = s.copy()
+            yield s, None
+            yield s2, Raise(Exc(None, (), term=V.fresh_int("compile_exc"), note="raised while compiling / executing the module"))
+
+        eng.models[id(compiler.compile_module)] = Model("compiler.compile_module (compiles and runs the forms; may raise)", compile_module)
+
+        def bytecode(e, s, a, k):
+            r = V.fresh_val("cache_file_bytes")
+            s.ghost["bytecode_calls"] = list(s.ghost.get("bytecode_calls", [])) + [([e.lift(x, s) for x in a], r)]
+            yield s, SV(r)
+
+        eng.models[id(imp._basilisp_bytecode)] = Model("_basilisp_bytecode (by contract, above)", bytecode)
+
+        def cache_bytecode(e, s, a, k):
+            s.ghost["cache_writes"] = list(s.ghost.get("cache_writes", [])) + [[e.lift(x, s) for x in a[1:]]]
+            yield s, None
+
+        eng.method_models[(imp.BasilispImporter, "_cache_bytecode")] = Model("BasilispImporter._cache_bytecode (writes the bytes)", cache_bytecode)
+
+        def path_stats(e, s, a, k):
+            # the file system *now*: whatever the file's time and size are at this moment
+            yield s, {"mtime": SV(V.fresh_val("stat_now_mtime")), "size": SV(V.fresh_val("stat_now_size"))}
+
+        eng.method_models[(imp.BasilispImporter, "path_stats")] = Model("BasilispImporter.path_stats (the file as it is now)", path_stats)
+        eng.attr_overrides = dict(getattr(eng, "attr_overrides", {}))
+        eng.attr_overrides[(id(_sys), "dont_write_bytecode")] = lambda e, s: SV(V.mk_bool(z3.Const("sys.dont_write_bytecode", z3.BoolSort())))
+
+    c = pack.contract("basilisp.importer:BasilispImporter._exec_module")
+    c.param("self", OBJ(imp.BasilispImporter)).param("fullname", STR)
+    c.param_value("path_stats", lambda eng, st: {"mtime": SV(MT), "size": SV(SZ)})
+    c.param_value("loader_state", lambda eng, st: {"cache_filename": SV(CFN), "filename": SV(FN)})
+    c.setup(wsetup)
+    c.allow_callback_exceptions = True
+
+    def write_post(a):
+        st = a.post.st
+        calls, writes = st.ghost.get("bytecode_calls", []), st.ghost.get("cache_writes", [])
+        dont = z3.Const("sys.dont_write_bytecode", z3.BoolSort())
+        if not calls and not writes:
+            return dont
+        if len(calls) != 1 or len(writes) != 1 or len(calls[0][0]) != 3 or len(writes[0]) != 3:
+            return z3.BoolVal(False)
+        (mt, sz, _code), data = calls[0]
+        return z3.And(z3.Not(dont), mt == MT, sz == SZ, writes[0][0] == FN, writes[0][1] == CFN, writes[0][2] == data)
+
+    c.ensures("the cache file is written once, to the cache path of this source, with a header built from the modification time and size that were sampled before "
+              "the source was read (the path_stats argument) - or not at all when bytecode writing is switched off", write_post)
+    c.replay(lambda m, ctx, ob: WRITE_REPLAY)
+    c.replay_without_model = True
+
+
+WRITE_REPLAY = r'''
+import os, subprocess, sys, tempfile, time
+d = tempfile.mkdtemp()
+cache = tempfile.mkdtemp()
+src = os.path.join(d, "c14w.lpy")
+go, started = os.path.join(d, "go"), os.path.join(d, "started")
+open(src, "w").write('(ns c14w (:import os.path time))\n(def version "one")\n(.close (python/open "%s" "w"))\n(while (not (os.path/exists "%s")) (time/sleep 0.05))\n' % (started, go))
+env = dict(os.environ, PYTHONPATH=d + os.pathsep + os.environ.get("PYTHONPATH", ""), PYTHONPYCACHEPREFIX=cache)
+env.pop("PYTHONDONTWRITEBYTECODE", None)
+prog = "import basilisp.main as m; m.init(); import importlib; print('VERSION', importlib.import_module('c14w').version)"
+a = subprocess.Popen([sys.executable, "-c", prog], env=env, stdout=subprocess.PIPE, stderr=subprocess.PIPE, text=True)
+t0 = time.time()
+while not os.path.exists(started) and time.time() - t0 < 400 and a.poll() is None:
+    time.sleep(0.2)                # process A has read version one and now waits inside it
+time.sleep(1.2)                    # (a later whole second, so the modification time differs as well as the size)
+open(src + ".tmp", "w").write('(ns c14w)\n(def version "two")\n(def padding-so-that-the-size-differs 12345)\n')
+os.replace(src + ".tmp", src)      # the source is replaced while A is still loading it
+open(go, "w").close()
+out_a = a.communicate(timeout=400)[0]
+outs = []
+for seed in ("7", "4242"):
+    r = subprocess.run([sys.executable, "-c", prog], env=dict(env, PYTHONHASHSEED=seed), capture_output=True, text=True, timeout=400)
+    outs.append([l for l in r.stdout.splitlines() if l.startswith("VERSION")] or [r.stderr[-200:]])
+print("process A:", out_a.strip().splitlines()[-1:], " later processes:", outs)
+print("REPRODUCED" if any(o != ["VERSION two"] for o in outs) else "not reproduced")
+'''
+
 
 
 # ----------------------------------------------------------------------------- keyword interning
